@@ -544,8 +544,13 @@ func (p *Parser) parseSelectStatement() (ast.Statement, error) {
 	// Also allow set operation keywords (UNION, EXCEPT, INTERSECT) for queries in CTEs
 	if !p.isType(models.TokenTypeFrom) && !p.isType(models.TokenTypeEOF) &&
 		!p.isType(models.TokenTypeSemicolon) && !p.isType(models.TokenTypeRParen) &&
-		!p.isAnyType(models.TokenTypeUnion, models.TokenTypeExcept, models.TokenTypeIntersect) {
-		// If not FROM, EOF, semicolon, right paren, or set operation, it's likely an error
+		!p.isAnyType(models.TokenTypeUnion, models.TokenTypeExcept, models.TokenTypeIntersect) &&
+		// a SELECT without FROM may still carry the other clauses (SELECT 1 WHERE ..., SELECT 1 ORDER BY 1
+		// LIMIT 1) and, inside INSERT ... SELECT, be followed by ON CONFLICT / RETURNING
+		!p.isAnyType(models.TokenTypeWhere, models.TokenTypeGroup, models.TokenTypeHaving, models.TokenTypeOrder,
+			models.TokenTypeLimit, models.TokenTypeOffset, models.TokenTypeFetch, models.TokenTypeFor,
+			models.TokenTypeOn, models.TokenTypeReturning) {
+		// Anything else after the select list is likely an error
 		return nil, p.expectedError("FROM, semicolon, or end of statement")
 	}
 
